@@ -77,6 +77,14 @@ def namespace_bytes() -> bytes:
     return impl.serialize(cfg, stmts, nss)
 
 
+def rdflib_namespace_bytes() -> bytes:
+    """An rdflib Graph with ONE triple (so rdflib's own hash-ordered iteration cannot matter), its ~30 default bindings plus four of its own, declarations on."""
+    stmts = [(I("http://example.org/a/s1"), I("http://example.org/p#q"), ("lit", "x", "", ""))]
+    cfg = impl.default_cfg(integ="rdflib", entry="graph_serialize", sclass="triple", ltype=1, nsdecl=True, preset=(16, 4, 2), gen=False, star=False)
+    nss = [("ex", "http://example.org/"), ("q", "http://example.org/p#"), ("z", "http://z/"), ("a", "http://a/")]
+    return impl.serialize(cfg, stmts, nss)
+
+
 def graph_serialize_bytes() -> bytes:
     _, _, stmts, _ = workloads()["D"]
     cfg = impl.default_cfg(integ="rdflib", entry="graph_serialize", sclass="triple", ltype=1, preset=(8, 3, 2), gen=False, star=False)
@@ -87,6 +95,7 @@ def digests() -> dict:
     d = {name: hashlib.sha256(solo_bytes(name)).hexdigest() for name in workloads()}
     d["A/fs250"] = hashlib.sha256(solo_bytes("A", 250)).hexdigest()
     d["namespaces"] = hashlib.sha256(namespace_bytes()).hexdigest()
+    d["rdflib-namespaces"] = hashlib.sha256(rdflib_namespace_bytes()).hexdigest()
     # rdflib's own iteration order over a Graph depends on hashing, so for Graph.serialize the statement SEQUENCE is not an
     # input the caller controls: only the content is compared
     content = sorted(repr(x) for x in impl.parse("rdflib", graph_serialize_bytes(), "flat"))
